@@ -400,3 +400,46 @@ func InnermostFuncSyntax(fd *ast.FuncDecl, pos token.Pos) ast.Node {
 	})
 	return best
 }
+
+// IdentAt returns the name of the variable that the expression at pos is
+// assigned to (`x := <expr>` / `x = <expr>` / `var x = <expr>`), or "".
+func (c *Ctx) IdentAt(pos token.Pos) string {
+	if !pos.IsValid() {
+		return ""
+	}
+	for _, p := range c.Pkgs {
+		if !InModule(p.PkgPath) {
+			continue
+		}
+		for _, f := range p.Syntax {
+			if f.Pos() > pos || pos >= f.End() {
+				continue
+			}
+			name := ""
+			ast.Inspect(f, func(n ast.Node) bool {
+				if n == nil || n.Pos() > pos || n.End() <= pos {
+					return n == nil || false
+				}
+				switch n := n.(type) {
+				case *ast.AssignStmt:
+					for i, r := range n.Rhs {
+						if r.Pos() <= pos && pos < r.End() && i < len(n.Lhs) && len(n.Lhs) == len(n.Rhs) {
+							if id, ok := n.Lhs[i].(*ast.Ident); ok {
+								name = id.Name
+							}
+						}
+					}
+				case *ast.ValueSpec:
+					for i, r := range n.Values {
+						if r.Pos() <= pos && pos < r.End() && i < len(n.Names) {
+							name = n.Names[i].Name
+						}
+					}
+				}
+				return true
+			})
+			return name
+		}
+	}
+	return ""
+}
